@@ -60,7 +60,15 @@ type tickOp struct {
 	ver    int
 	sub    string
 	de     int    // epoch delta for newEpoch
+	mul    int    // or: jump to epoch*mul (mul itself from epoch 0)
 	signer string // "A" alphabet, "AN" alphabet+node, "N" node only, "S" stranger, "AO" alphabet + the other node
+}
+
+func (o tickOp) target(epoch int) int {
+	if o.mul > 0 {
+		return max(epoch, 1) * o.mul
+	}
+	return epoch + o.de
 }
 
 type TickDriver struct {
@@ -111,6 +119,8 @@ func NewTickDriver(mode string) *TickDriver {
 		for _, de := range []int{-1, 0, 1, 2, 3} {
 			add(tickOp{kind: "newEpoch", de: de, signer: "A"})
 		}
+		// a jump to 256 times the epoch: the numbers whose byte encodings are shifts of one another
+		add(tickOp{kind: "newEpoch", mul: 256, signer: "A"})
 		add(tickOp{kind: "newEpoch", de: 1, signer: "S"}, tickOp{kind: "newEpoch", de: 1, signer: "N"}, tickOp{kind: "nextBlock"})
 	case "C06bare":
 		// a 3-key committee (majority account != Alphabet account) and no system subscriber, so
@@ -176,7 +186,7 @@ func (d *TickDriver) OpName(n *Node, i int) string {
 	m := n.M.(*tickModel)
 	switch o.kind {
 	case "newEpoch":
-		return fmt.Sprintf("newEpoch(%d) by %s", m.epoch+o.de, o.signer)
+		return fmt.Sprintf("newEpoch(%d) by %s", o.target(m.epoch), o.signer)
 	case "subscribe":
 		return fmt.Sprintf("subscribeForNewEpoch(%s) by %s", o.sub, o.signer)
 	case "nextBlock":
@@ -343,7 +353,7 @@ func (d *TickDriver) Step(x *Exec, n *Node, i int) StepResult {
 			expN = []Notif{{"netmap", "NewEpochSubscription", []any{NX(w.Contracts[o.sub].Hash.BytesBE())}}}
 		}
 	case "newEpoch":
-		e := m.epoch + o.de
+		e := o.target(m.epoch)
 		scr = Script(h, "newEpoch", int64(e))
 		rejected := contains(m.subs, "p2") && e == 3
 		if !alpha || e <= m.epoch || rejected {
